@@ -371,11 +371,47 @@ theorem linearized_eq {s : State} {t : Nat} {th : Thread} (h : s.threads[t]? = s
     linearized s t = (match th.pc with | .unlock => true | .post => true | .done => true | _ => false) := by
   simp [linearized, pcOf, h]
 
+/-! ### a per-thread potential for termination
+
+`gOf c t` = potential of thread `t`: idle 7; inside an operation 6, 5, 4 before the critical-section body and
+10, 9, 8 after it (at `unlock`, `post`, returned-not-yet-handed-over).  Every stutter step of `t` lowers it; the
+linearising body step raises it by 6 while the abstract system makes a step. -/
+
+def gPc : PC → Nat
+  | .wait => 6 | .lock => 5 | .body => 4 | .unlock => 10 | .post => 9 | .done => 8
+
+def gOf (c : CState σ) (t : Nat) : Nat :=
+  match c.mode t with
+  | .idle => 7
+  | .inP q _ _ => gPc (pcOf (c.qs q) t)
+  | .inC q _ => gPc (pcOf (c.qs q) t)
+
+theorem gOf_other (c c' : CState σ) (t' : Nat) (hmode : c'.mode t' = c.mode t')
+    (hpc : ∀ q', pcOf (c'.qs q') t' = pcOf (c.qs q') t') : gOf c' t' = gOf c t' := by
+  unfold gOf
+  rw [hmode]
+  cases c.mode t' <;> simp [hpc]
+
+theorem gOf_frame (c c' : CState σ) {t q : Nat} {s' : State} {th' : Thread}
+    (hqs : c'.qs = upd c.qs q s') (hset : s'.threads = (c.qs q).threads.set t th')
+    (hmode : ∀ t', t' ≠ t → c'.mode t' = c.mode t') (t' : Nat) (hne : t' ≠ t) : gOf c' t' = gOf c t' := by
+  apply gOf_other c c' t' (hmode t' hne)
+  intro q'
+  rw [hqs]
+  by_cases e : q' = q
+  · subst e; simp only [Chain.upd, if_true, pcOf, get_set_ne hset hne]
+  · simp [Chain.upd, e]
+
+/-- what a step of thread `t` does to the abstraction and to the potentials -/
+def StepRel (P : Prog σ) (c c' : CState σ) (t : Nat) : Prop :=
+  ((abs c' = abs c ∧ gOf c' t < gOf c t) ∨ (astep P (abs c) t = some (abs c') ∧ gOf c' t ≤ gOf c t + 6))
+  ∧ ∀ t', t' ≠ t → gOf c' t' = gOf c t'
+
 /-! ### the forward simulation, one mode at a time -/
 
 theorem sim_inP {P : Prog σ} {c c' : CState σ} {t q v : Nat} {k : σ} (h : CInv P c) (ht : t < P.nthreads)
     (hmode : c.mode t = .inP q v k) (hs : cstep P c t = some c') :
-    CInv P c' ∧ (abs c' = abs c ∨ astep P (abs c) t = some (abs c')) := by
+    CInv P c' ∧ StepRel P c c' t := by
   obtain ⟨th, hth⟩ := entry_of_lt h ht q
   have hq : (c.mode t).queue = some q := by rw [hmode]; rfl
   have hmok := h.mok t q th hq hth
@@ -389,17 +425,19 @@ theorem sim_inP {P : Prog σ} {c c' : CState σ} {t q v : Nat} {k : σ} (h : CIn
   by_cases hdone : pcOf (c.qs q) t = .done
   · -- return
     rw [if_pos hdone] at hs; cases hs
-    refine ⟨cinv_return h hq hdone k, Or.inl ?_⟩
-    apply AState.ext'
-    · rfl
-    · funext t'
-      show absLoc { c with loc := upd c.loc t k, mode := upd c.mode t .idle } t' = absLoc c t'
-      by_cases e : t' = t
-      · subst e
-        have hlin : linearized (c.qs q) t' = true := by simp [linearized, hdone]
-        simp [absLoc, hmode, hlin, Chain.upd]
-      · apply absLoc_other <;> simp [Chain.upd, e]
-    · rfl
+    refine ⟨cinv_return h hq hdone k, ⟨Or.inl ⟨?_, ?_⟩, ?_⟩⟩
+    · apply AState.ext'
+      · rfl
+      · funext t'
+        show absLoc { c with loc := upd c.loc t k, mode := upd c.mode t .idle } t' = absLoc c t'
+        by_cases e : t' = t
+        · subst e
+          have hlin : linearized (c.qs q) t' = true := by simp [linearized, hdone]
+          simp [absLoc, hmode, hlin, Chain.upd]
+        · apply absLoc_other <;> simp [Chain.upd, e]
+      · rfl
+    · simp [gOf, hmode, hdone, Chain.upd, gPc]
+    · intro t' e; apply gOf_other <;> simp [Chain.upd, e]
   · rw [if_neg hdone] at hs
     cases hst : step (c.qs q) t with
     | none => simp [hst] at hs
@@ -424,12 +462,17 @@ theorem sim_inP {P : Prog σ} {c c' : CState σ} {t q v : Nat} {k : σ} (h : CIn
         apply abs_stutter c { c with qs := upd c.qs q s' } rfl hset (fun _ _ => rfl) (fun _ _ => rfl)
           (absBuf_frame hw hreads) hreads
         simp only [absLoc, hmode, Chain.upd, if_true, hl]
+      have gold : gOf c t = gPc th.pc := by simp [gOf, hmode, pcOf_eq hth]
+      have gnew : gOf { c with qs := upd c.qs q s' } t = gPc th'.pc := by
+        simp [gOf, hmode, Chain.upd, pcOf_eq hth']
+      have gfr : ∀ t', t' ≠ t → gOf { c with qs := upd c.qs q s' } t' = gOf c t' :=
+        gOf_frame c { c with qs := upd c.qs q s' } rfl hset (fun _ _ => rfl)
       rcases hcase with ⟨h1, h2, h3, h4⟩ | ⟨h1, h2, h3, h4⟩ | ⟨h1, h2, v0, h3, h4⟩ | ⟨h1, h2, h3, h4⟩ | ⟨h1, h2, h3, h4⟩
       · refine ⟨hcinv ⟨rfl, hact, hrole', fun _ => by rw [h3]; exact hpre (Or.inl h1), fun hp => ?_⟩,
-                Or.inl (stutter h4 (by rw [hlin, hlin', h1, h2]))⟩
+                ⟨Or.inl ⟨stutter h4 (by rw [hlin, hlin', h1, h2]), by rw [gnew, gold, h1, h2]; decide⟩, gfr⟩⟩
         rcases hp with e | e | e <;> simp [h2] at e
       · refine ⟨hcinv ⟨rfl, hact, hrole', fun _ => by rw [h3]; exact hpre (Or.inr (Or.inl h1)), fun hp => ?_⟩,
-                Or.inl (stutter h4 (by rw [hlin, hlin', h1, h2]))⟩
+                ⟨Or.inl ⟨stutter h4 (by rw [hlin, hlin', h1, h2]), by rw [gnew, gold, h1, h2]; decide⟩, gfr⟩⟩
         rcases hp with e | e | e <;> simp [h2] at e
       · -- the linearisation point: push
         have hitems := hpre (Or.inr (Or.inr h1))
@@ -439,7 +482,7 @@ theorem sim_inP {P : Prog σ} {c c' : CState σ} {t q v : Nat} {k : σ} (h : CIn
           obtain ⟨e1, e2⟩ := h3
           exact ⟨by first | exact e1 | exact e1.symm, by first | exact e2 | exact e2.symm⟩
         obtain ⟨rfl, hnil⟩ := hv
-        refine ⟨hcinv ⟨rfl, hact, hrole', fun hp => ?_, fun _ => hnil⟩, Or.inr ?_⟩
+        refine ⟨hcinv ⟨rfl, hact, hrole', fun hp => ?_, fun _ => hnil⟩, ⟨Or.inr ⟨?_, by rw [gnew, gold, h1, h2]; decide⟩, gfr⟩⟩
         · rcases hp with e | e | e <;> simp [h2] at e
         · have href := step_refines hinv hst
           have hev : stepEvent (c.qs q) t = some (.push t v0) := by
@@ -461,17 +504,17 @@ theorem sim_inP {P : Prog σ} {c c' : CState σ} {t q v : Nat} {k : σ} (h : CIn
           simp only [hl2, hact, href2]
       · have hi0 := hpost (Or.inl h1)
         refine ⟨hcinv ⟨rfl, hact, hrole', fun hp => ?_, fun _ => by rw [h3]; exact hi0⟩,
-                Or.inl (stutter h4 (by rw [hlin, hlin', h1, h2]))⟩
+                ⟨Or.inl ⟨stutter h4 (by rw [hlin, hlin', h1, h2]), by rw [gnew, gold, h1, h2]; decide⟩, gfr⟩⟩
         rcases hp with e | e | e <;> simp [h2] at e
       · have hi0 := hpost (Or.inr (Or.inl h1))
         have hnp : th'.pc = .done := by rw [h2, hi0]; rfl
         refine ⟨hcinv ⟨rfl, hact, hrole', fun hp => ?_, fun _ => by rw [h3]; exact hi0⟩,
-                Or.inl (stutter h4 (by rw [hlin, hlin', h1, hnp]))⟩
+                ⟨Or.inl ⟨stutter h4 (by rw [hlin, hlin', h1, hnp]), by rw [gnew, gold, h1, hnp]; decide⟩, gfr⟩⟩
         rcases hp with e | e | e <;> simp [hnp] at e
 
 theorem sim_inC {P : Prog σ} {c c' : CState σ} {t q : Nat} {k : Nat → σ} (h : CInv P c) (ht : t < P.nthreads)
     (hmode : c.mode t = .inC q k) (hs : cstep P c t = some c') :
-    CInv P c' ∧ (abs c' = abs c ∨ astep P (abs c) t = some (abs c')) := by
+    CInv P c' ∧ StepRel P c c' t := by
   obtain ⟨th, hth⟩ := entry_of_lt h ht q
   have hq : (c.mode t).queue = some q := by rw [hmode]; rfl
   have hmok := h.mok t q th hq hth
@@ -484,17 +527,19 @@ theorem sim_inC {P : Prog σ} {c c' : CState σ} {t q : Nat} {k : Nat → σ} (h
   simp only [hmode] at hs
   by_cases hdone : pcOf (c.qs q) t = .done
   · rw [if_pos hdone] at hs; cases hs
-    refine ⟨cinv_return h hq hdone _, Or.inl ?_⟩
-    apply AState.ext'
-    · rfl
-    · funext t'
-      show absLoc { c with loc := upd c.loc t (k (lastGot (c.qs q) t)), mode := upd c.mode t .idle } t' = absLoc c t'
-      by_cases e : t' = t
-      · subst e
-        have hlin : linearized (c.qs q) t' = true := by simp [linearized, hdone]
-        simp [absLoc, hmode, hlin, Chain.upd]
-      · apply absLoc_other <;> simp [Chain.upd, e]
-    · rfl
+    refine ⟨cinv_return h hq hdone _, ⟨Or.inl ⟨?_, ?_⟩, ?_⟩⟩
+    · apply AState.ext'
+      · rfl
+      · funext t'
+        show absLoc { c with loc := upd c.loc t (k (lastGot (c.qs q) t)), mode := upd c.mode t .idle } t' = absLoc c t'
+        by_cases e : t' = t
+        · subst e
+          have hlin : linearized (c.qs q) t' = true := by simp [linearized, hdone]
+          simp [absLoc, hmode, hlin, Chain.upd]
+        · apply absLoc_other <;> simp [Chain.upd, e]
+      · rfl
+    · simp [gOf, hmode, hdone, Chain.upd, gPc]
+    · intro t' e; apply gOf_other <;> simp [Chain.upd, e]
   · rw [if_neg hdone] at hs
     cases hst : step (c.qs q) t with
     | none => simp [hst] at hs
@@ -520,17 +565,22 @@ theorem sim_inC {P : Prog σ} {c c' : CState σ} {t q : Nat} {k : Nat → σ} (h
           (absBuf_frame hwrites hr) hr
         have hgot : lastGot s' t = lastGot (c.qs q) t := by rw [lastGot_eq hth', lastGot_eq hth, hg]
         simp only [absLoc, hmode, Chain.upd, if_true, hl, hgot]
+      have gold : gOf c t = gPc th.pc := by simp [gOf, hmode, pcOf_eq hth]
+      have gnew : gOf { c with qs := upd c.qs q s' } t = gPc th'.pc := by
+        simp [gOf, hmode, Chain.upd, pcOf_eq hth']
+      have gfr : ∀ t', t' ≠ t → gOf { c with qs := upd c.qs q s' } t' = gOf c t' :=
+        gOf_frame c { c with qs := upd c.qs q s' } rfl hset (fun _ _ => rfl)
       rcases hcase with ⟨h1, h2, h3, h4, h5⟩ | ⟨h1, h2, h3, h4, h5⟩ | ⟨h1, h2, h3, h4, h5⟩ | ⟨h1, h2, h3, h4, h5⟩
           | ⟨h1, h2, h3, h4, h5⟩
       · refine ⟨hcinv ⟨rfl, hact, hrole', fun _ => by rw [h3]; exact hpre (Or.inl h1), fun hp => ?_⟩,
-                Or.inl (stutter h5 h4 (by rw [hlin, hlin', h1, h2]))⟩
+                ⟨Or.inl ⟨stutter h5 h4 (by rw [hlin, hlin', h1, h2]), by rw [gnew, gold, h1, h2]; decide⟩, gfr⟩⟩
         rcases hp with e | e | e <;> simp [h2] at e
       · refine ⟨hcinv ⟨rfl, hact, hrole', fun _ => by rw [h3]; exact hpre (Or.inr (Or.inl h1)), fun hp => ?_⟩,
-                Or.inl (stutter h5 h4 (by rw [hlin, hlin', h1, h2]))⟩
+                ⟨Or.inl ⟨stutter h5 h4 (by rw [hlin, hlin', h1, h2]), by rw [gnew, gold, h1, h2]; decide⟩, gfr⟩⟩
         rcases hp with e | e | e <;> simp [h2] at e
       · -- the linearisation point: pop
         have hquota := hpre (Or.inr (Or.inr h1))
-        refine ⟨hcinv ⟨rfl, hact, hrole', fun hp => ?_, fun _ => by rw [h3, hquota]⟩, Or.inr ?_⟩
+        refine ⟨hcinv ⟨rfl, hact, hrole', fun hp => ?_, fun _ => by rw [h3, hquota]⟩, ⟨Or.inr ⟨?_, by rw [gnew, gold, h1, h2]; decide⟩, gfr⟩⟩
         · rcases hp with e | e | e <;> simp [h2] at e
         · have href := step_refines hinv hst
           have hev : stepEvent (c.qs q) t = some (.pop t ((c.qs q).ring (c.qs q).consumeAt)) := by
@@ -552,12 +602,12 @@ theorem sim_inC {P : Prog σ} {c c' : CState σ} {t q : Nat} {k : Nat → σ} (h
           rfl
       · have hi0 := hpost (Or.inl h1)
         refine ⟨hcinv ⟨rfl, hact, hrole', fun hp => ?_, fun _ => by rw [h3]; exact hi0⟩,
-                Or.inl (stutter h5 h4 (by rw [hlin, hlin', h1, h2]))⟩
+                ⟨Or.inl ⟨stutter h5 h4 (by rw [hlin, hlin', h1, h2]), by rw [gnew, gold, h1, h2]; decide⟩, gfr⟩⟩
         rcases hp with e | e | e <;> simp [h2] at e
       · have hi0 := hpost (Or.inr (Or.inl h1))
         have hnp : th'.pc = .done := by rw [h2, hi0]; rfl
         refine ⟨hcinv ⟨rfl, hact, hrole', fun hp => ?_, fun _ => by rw [h3]; exact hi0⟩,
-                Or.inl (stutter h5 h4 (by rw [hlin, hlin', h1, hnp]))⟩
+                ⟨Or.inl ⟨stutter h5 h4 (by rw [hlin, hlin', h1, hnp]), by rw [gnew, gold, h1, hnp]; decide⟩, gfr⟩⟩
         rcases hp with e | e | e <;> simp [hnp] at e
 
 theorem abs_loc_step (c : CState σ) {t : Nat} (hidle : c.mode t = .idle) (l' : σ) :
@@ -574,7 +624,7 @@ theorem abs_loc_step (c : CState σ) {t : Nat} (hidle : c.mode t = .idle) (l' : 
 
 theorem sim_idle {P : Prog σ} {c c' : CState σ} {t : Nat} (h : CInv P c) (ht : t < P.nthreads)
     (hmode : c.mode t = .idle) (hs : cstep P c t = some c') :
-    CInv P c' ∧ (abs c' = abs c ∨ astep P (abs c) t = some (abs c')) := by
+    CInv P c' ∧ StepRel P c c' t := by
   have hnone : ∀ q, (c.mode t).queue ≠ some q := by intro q e; rw [hmode] at e; cases e
   have hl : (abs c).loc t = c.loc t := by show absLoc c t = c.loc t; simp [absLoc, hmode]
   unfold cstep at hs
@@ -590,13 +640,15 @@ theorem sim_idle {P : Prog σ} {c c' : CState σ} {t : Nat} (h : CInv P c) (ht :
         { role := .prod, pc := .wait, items := [v],
           orig := ((c.qs q).writes.filter (fun x => x.1 == t)).map (·.2) ++ [v] } := rfl
     refine ⟨cinv_update h hth hset rfl ⟨_, _, arm_prod_inv hinv hth hpc v⟩ (fun q' _ => hnone q')
-              (Or.inl ⟨rfl, rfl, hact, rfl, fun _ => rfl, fun hp => ?_⟩), Or.inl ?_⟩
+              (Or.inl ⟨rfl, rfl, hact, rfl, fun _ => rfl, fun hp => ?_⟩), ⟨Or.inl ⟨?_, ?_⟩, ?_⟩⟩
     · rcases hp with e | e | e <;> simp at e
     · apply abs_stutter c { c with qs := upd c.qs q (armProd (c.qs q) t v), mode := upd c.mode t (.inP q v k) }
         rfl hset (fun _ _ => rfl) (fun t' e => by simp [Chain.upd, e]) (absBuf_frame rfl rfl) rfl
       have hlin : linearized (armProd (c.qs q) t v) t = false := by
         rw [linearized_eq (get_set_self hth hset)]
       simp [absLoc, hmode, Chain.upd, hlin]
+    · simp [gOf, hmode, Chain.upd, pcOf_eq (get_set_self hth hset), gPc]
+    · exact gOf_frame c _ rfl hset (fun t' e => by simp [Chain.upd, e])
   | consume q k =>
     simp only [hact] at hs; cases hs
     obtain ⟨th, hth⟩ := entry_of_lt h ht q
@@ -606,20 +658,24 @@ theorem sim_idle {P : Prog σ} {c c' : CState σ} {t : Nat} (h : CInv P c) (ht :
         { role := .cons, pc := .wait, quota := 1,
           got := ((c.qs q).reads.filter (fun x => x.1 == t)).map (·.2) } := rfl
     refine ⟨cinv_update h hth hset rfl ⟨_, _, arm_cons_inv hinv hth hpc⟩ (fun q' _ => hnone q')
-              (Or.inl ⟨rfl, rfl, hact, rfl, fun _ => rfl, fun hp => ?_⟩), Or.inl ?_⟩
+              (Or.inl ⟨rfl, rfl, hact, rfl, fun _ => rfl, fun hp => ?_⟩), ⟨Or.inl ⟨?_, ?_⟩, ?_⟩⟩
     · rcases hp with e | e | e <;> simp at e
     · apply abs_stutter c { c with qs := upd c.qs q (armCons (c.qs q) t), mode := upd c.mode t (.inC q k) }
         rfl hset (fun _ _ => rfl) (fun t' e => by simp [Chain.upd, e]) (absBuf_frame rfl rfl) rfl
       have hlin : linearized (armCons (c.qs q) t) t = false := by
         rw [linearized_eq (get_set_self hth hset)]
       simp [absLoc, hmode, Chain.upd, hlin]
+    · simp [gOf, hmode, Chain.upd, pcOf_eq (get_set_self hth hset), gPc]
+    · exact gOf_frame c _ rfl hset (fun t' e => by simp [Chain.upd, e])
   | tau k =>
     simp only [hact] at hs; cases hs
-    refine ⟨cinv_loc h hmode k, Or.inr ?_⟩
-    rw [abs_loc_step c hmode k]
-    unfold astep
-    rw [if_pos ht]
-    simp only [hl, hact]
+    refine ⟨cinv_loc h hmode k, ⟨Or.inr ⟨?_, ?_⟩, ?_⟩⟩
+    · rw [abs_loc_step c hmode k]
+      unfold astep
+      rw [if_pos ht]
+      simp only [hl, hact]
+    · simp [gOf, hmode]
+    · intro t' e; apply gOf_other <;> simp
   | await p pred k =>
     simp only [hact] at hs
     cases hmp : c.mode p with
@@ -627,12 +683,14 @@ theorem sim_idle {P : Prog σ} {c c' : CState σ} {t : Nat} (h : CInv P c) (ht :
       simp only [hmp] at hs
       by_cases hp : pred (c.loc p) = true
       · rw [if_pos hp] at hs; cases hs
-        refine ⟨cinv_loc h hmode k, Or.inr ?_⟩
-        rw [abs_loc_step c hmode k]
-        unfold astep
-        rw [if_pos ht]
-        have hlp : (abs c).loc p = c.loc p := by show absLoc c p = c.loc p; simp [absLoc, hmp]
-        simp only [hl, hact, hlp, hp, if_true]
+        refine ⟨cinv_loc h hmode k, ⟨Or.inr ⟨?_, ?_⟩, ?_⟩⟩
+        · rw [abs_loc_step c hmode k]
+          unfold astep
+          rw [if_pos ht]
+          have hlp : (abs c).loc p = c.loc p := by show absLoc c p = c.loc p; simp [absLoc, hmp]
+          simp only [hl, hact, hlp, hp, if_true]
+        · simp [gOf, hmode]
+        · intro t' e; apply gOf_other <;> simp
       · rw [if_neg hp] at hs; cases hs
     | inP _ _ _ => simp [hmp] at hs
     | inC _ _ => simp [hmp] at hs
@@ -641,7 +699,7 @@ theorem sim_idle {P : Prog σ} {c c' : CState σ} {t : Nat} (h : CInv P c) (ht :
 /-- **forward simulation** (client-generic, any number of queues): every step of the composed step-level system
 preserves the product invariant and is a stutter step or exactly one step of the atomic-FIFO system -/
 theorem sim_step {P : Prog σ} {c c' : CState σ} {t : Nat} (h : CInv P c) (hs : cstep P c t = some c') :
-    CInv P c' ∧ (abs c' = abs c ∨ astep P (abs c) t = some (abs c')) := by
+    CInv P c' ∧ StepRel P c c' t := by
   by_cases ht : t < P.nthreads
   · cases hm : c.mode t with
     | idle => exact sim_idle h ht hm hs
@@ -703,7 +761,7 @@ theorem creach_refines {P : Prog σ} {loc0 : Nat → σ} (hcap : ∀ q, 0 < P.ca
   | step _ hs ih =>
     obtain ⟨h1, h2⟩ := sim_step ih.1 hs
     refine ⟨h1, ?_⟩
-    rcases h2 with e | e
+    rcases h2.1 with ⟨e, _⟩ | ⟨e, _⟩
     · rw [e]; exact ih.2
     · exact .step ih.2 e
   | intr _ hs ih => rw [sim_intr hs]; exact ih
